@@ -131,9 +131,11 @@ type fn struct {
 type gen struct {
 	ctx        *common.Ctx
 	shared     []string // names used both as parameters of some functions and as package variables
-	bareGlobal bool     // some body has a bare symbol that is not a parameter (known finding C08-bare-symbol-body)
+	bareGlobal bool     // some body has a bare symbol that is not a parameter (repaired finding C08-bare-symbol-body)
 	fns        []*fn
-	calls      int // user calls generated in the current body / main (bounded)
+	calls      int    // user calls generated in the current body / main (bounded)
+	undef      string // name of a function that is never defined
+	undefCalls int
 }
 
 var pool = []string{"a", "b", "c"}
@@ -283,6 +285,25 @@ func (g *gen) exprU(self *fn, guarded bool, depth int, num bool) *node {
 		return L(cl...)
 	case x < 72 && !num:
 		return g.lst(self, guarded, depth)
+	case x == 72 || (x == 73 && g.r(2) == 0):
+		// a call of a function that is never defined, with arguments that have side effects or signal: compiled
+		// code (a placeholder call) evaluates the arguments first, the list form signals undefined-function at
+		// once - both allowed (CLHS 3.1.2.1.2.3); the model must say which one happens
+		g.undefCalls++
+		var args []*node
+		for i, n := 0, g.r(3); i < n; i++ {
+			switch g.r(4) {
+			case 0:
+				args = append(args, call("emit", I(int64(g.r(7)))))
+			case 1:
+				args = append(args, call("+", I(1), call("list", I(2)))) // type-error
+			case 2:
+				args = append(args, call("emit", g.exprT(self, guarded, depth+1, true)))
+			default:
+				args = append(args, g.exprT(self, guarded, depth+1, num))
+			}
+		}
+		return ucall(g.undef, args...)
 	case x < 77:
 		c := call("<", g.exprT(self, guarded, depth+1, true), I(int64(g.r(5))))
 		if g.r(100) < 35 {
@@ -616,6 +637,7 @@ type program struct {
 	redefI     [][]int
 	mains      []*node
 	bareGlobal bool
+	undefCalls int
 }
 
 func rename(n *node, from, to string) *node {
@@ -633,7 +655,7 @@ func rename(n *node, from, to string) *node {
 }
 
 func genProgram(ctx *common.Ctx, prefix string) *program {
-	g := &gen{ctx: ctx}
+	g := &gen{ctx: ctx, undef: prefix + "z"}
 	for i, ns := 0, 1+ctx.Rng.Intn(2); i < ns; i++ {
 		g.shared = append(g.shared, fmt.Sprintf("%sv%d", prefix, i))
 	}
@@ -664,7 +686,7 @@ func genProgram(ctx *common.Ctx, prefix string) *program {
 			p.defs = append(p.defs, L(Y(common.Pick(ctx.Rng, []string{"defvar", "defvar", "defparameter"})), Y(v), I(int64(10+ctx.Rng.Intn(90)))))
 		}
 	}
-	rounds := ctx.Rng.Intn(3)
+	rounds := ctx.Rng.Intn(4) // up to three redefinitions of a function, with callers compiled in between
 	for r := 0; r < rounds; r++ {
 		var ds []*node
 		var is []int
@@ -691,6 +713,7 @@ func genProgram(ctx *common.Ctx, prefix string) *program {
 		p.mains = append(p.mains, g.mainForm())
 	}
 	p.bareGlobal = g.bareGlobal
+	p.undefCalls = g.undefCalls
 	return p
 }
 
@@ -703,9 +726,12 @@ const (
 	tBetween
 	tRepl
 	nTemplates
+	// tFinal is only used as the second variant of a redefine-between-runs group: all definitions and all
+	// redefinitions, in order, and the main forms in ONE code object
+	tFinal = nTemplates
 )
 
-var tnames = []string{"one-object", "one-object-compiled", "defs-then-mains", "mains-compiled-before-defs", "redefine-between-runs", "mains-between-defs", "repl-one-form-per-object"}
+var tnames = []string{"one-object", "one-object-compiled", "defs-then-mains", "mains-compiled-before-defs", "redefine-between-runs", "mains-between-defs", "repl-one-form-per-object", "defs-redefs-mains-one-object"}
 
 // play runs one history of the given template over program p (already renamed for this variant)
 func play(ctx *common.Ctx, p *program, tmpl int, order []int, compileMains bool, k int) *hist {
@@ -755,7 +781,7 @@ func play(ctx *common.Ctx, p *program, tmpl int, order []int, compileMains bool,
 			h.compile(1)
 		}
 		for i := 0; i < 1+k/2; i++ {
-			h.run(1, false)
+			h.run(1, len(p.redefs) == 0)
 		}
 		for r, ds := range p.redefs {
 			h.load(2+r, ds)
@@ -764,7 +790,8 @@ func play(ctx *common.Ctx, p *program, tmpl int, order []int, compileMains bool,
 			}
 			h.run(2+r, false)
 			for i := 0; i < 1+k/3; i++ {
-				h.run(1, false)
+				// after the last round the main forms see the final definitions: compared with tFinal
+				h.run(1, r == len(p.redefs)-1)
 			}
 			if ctx.Rng.Chance(30) {
 				// a fresh reading of the main forms after the redefinition
@@ -796,6 +823,18 @@ func play(ctx *common.Ctx, p *program, tmpl int, order []int, compileMains bool,
 			for _, m := range p.mains {
 				one(m, false)
 			}
+		}
+	case tFinal:
+		forms := append([]*node{}, defs...)
+		for _, ds := range p.redefs {
+			forms = append(forms, ds...)
+		}
+		h.load(0, append(forms, p.mains...))
+		if compileMains {
+			h.compile(0)
+		}
+		for i := 0; i < k; i++ {
+			h.run(0, true)
 		}
 	case tBetween:
 		// the main forms (top-level calls with side effects) at random places between the definitions
@@ -833,6 +872,12 @@ func Run(ctx *common.Ctx) {
 		if tmpl == tDirect || tmpl == tCompile || tmpl == tSplit {
 			nvar = 2 + ctx.Rng.Intn(2)
 		}
+		if tmpl == tRedefine {
+			nvar = 2 // the second variant reaches the same final definitions in one code object
+		}
+		if base.undefCalls > 0 {
+			ctx.Hist("programs-with:call-of-never-defined-function")
+		}
 		var groupMains [][]string
 		var groupDescs []any
 		for v := 0; v < nvar; v++ {
@@ -855,6 +900,9 @@ func Run(ctx *common.Ctx) {
 			if nvar > 1 && v > 0 {
 				// the variants of a group differ in order, in whether the code is compiled, and in repetitions
 				t = []int{tDirect, tCompile, tSplit}[ctx.Rng.Intn(3)]
+				if tmpl == tRedefine {
+					t = tFinal
+				}
 			}
 			order := perm(ctx, len(p.defs))
 			k := 1 + ctx.Rng.Intn(5)
@@ -905,13 +953,15 @@ func Run(ctx *common.Ctx) {
 			}
 		}
 		// direct comparison across the variants of a group: every evaluation of the main forms, whatever the
-		// definition order, compiled or not, first or k-th, must give the same outcome - unless the outcome
-		// involves an undefined function (no variant of these templates redefines anything)
+		// definition order, compiled or not, first or k-th, must give the same outcome - unless the outcome is
+		// undefined-function (the time at which an undefined operator is noticed may differ between the list form
+		// and compiled code).  In a redefine-between-runs group the evaluations after the last round of
+		// redefinitions are compared with the one-object variant that makes all definitions in order first.
 		var ref string
 		if base.bareGlobal {
-			// what a bare non-parameter body symbol means depends on whether the variable exists when the defun is
-			// evaluated (known finding): such programs are judged by the model only
-			groupMains = nil
+			// programs with a bare non-parameter body symbol take part in the direct comparison since repo fix
+			// C08-4 (the symbol is looked up at call time, whatever existed when the defun was evaluated)
+			ctx.Hist("direct-comparison:with-bare-free-symbol")
 		}
 		for vi, ms := range groupMains {
 			for _, m := range ms {
@@ -934,9 +984,9 @@ func Run(ctx *common.Ctx) {
 		}
 	}
 	ctx.Meta.DistinctNontrivial = len(distinct)
-	ctx.Meta.Rule = "programs of 2-5 functions (names sharing prefixes with def*/let*/set*/if/lambda/quote/progn forms, 15% of the occurrences of a function name written in another case) over +,-,<,list,rest,progn,if,case,floor,values,nil,t,emit, defvar/defparameter of 1-2 variables whose names are also parameters of some functions (defined before and after the functions, redefined between runs), 22% of the bodies bare symbols (parameter / shared name / other), list-valued forms - often empty list objects - as tests of if (35%), branches, clause forms, arguments (multiple-value producers in every argument position, as branches, bodies and main forms) with calls in argument position to functions of lower level and recursive calls (to any function, mutual recursion included) under (if (< n 1) ..); 0-2 rounds of redefinitions; 1-3 main forms; random definition order; seven history templates over code objects (one of them the REPL/load discipline: each form read, compiled and evaluated on its own) (load, Code.Compile, Code.Eval k=1..5 times, definitions before/after/between the main forms, redefinition between runs, fresh re-reading); wrong argument counts in 7% of the calls; evaluations = evaluations of a code object; distinct = distinct histories up to the name prefix"
+	ctx.Meta.Rule = "programs of 2-5 functions (names sharing prefixes with def*/let*/set*/if/lambda/quote/progn forms, 15% of the occurrences of a function name written in another case) over +,-,<,list,rest,progn,if,case,floor,values,nil,t,emit, defvar/defparameter of 1-2 variables whose names are also parameters of some functions (defined before and after the functions, redefined between runs), 22% of the bodies bare symbols (parameter / shared name / other), list-valued forms - often empty list objects - as tests of if (35%), branches, clause forms, arguments (multiple-value producers in every argument position, as branches, bodies and main forms) with calls in argument position to functions of lower level and recursive calls (to any function, mutual recursion included) under (if (< n 1) ..); 0-3 rounds of redefinitions; 1-3 main forms; random definition order; seven history templates over code objects (one of them the REPL/load discipline: each form read, compiled and evaluated on its own) (load, Code.Compile, Code.Eval k=1..5 times, definitions before/after/between the main forms, redefinition between runs, fresh re-reading) plus, for every redefinition history, the variant with all definitions and redefinitions in one code object (direct comparison of the final meaning); 1.5% of the sub-expressions calls of a never-defined function with emitting / failing arguments (lookup time of an undefined operator); wrong argument counts in 7% of the calls; evaluations = evaluations of a code object; distinct = distinct histories up to the name prefix"
 	header := "From Coq Require Import List ZArith String.\nFrom C08 Require Import Model Spec Corr.\nImport ListNotations.\nOpen Scope string_scope.\nOpen Scope list_scope.\n"
-	footer := "Definition res := Eval vm_compute in check_all cases.\nPrint res.\nDefinition gcount := Eval vm_compute in guard_count cases.\nPrint gcount.\nDefinition outside := Eval vm_compute in outside_count cases.\nPrint outside.\nDefinition deviations := Eval vm_compute in deviation_count cases.\nPrint deviations.\n"
+	footer := "Definition res := Eval vm_compute in check_all cases.\nPrint res.\nDefinition gcount := Eval vm_compute in guard_count cases.\nPrint gcount.\nDefinition outside := Eval vm_compute in outside_count cases.\nPrint outside.\nDefinition deviations := Eval vm_compute in deviation_count cases.\nPrint deviations.\nDefinition lookuplate := Eval vm_compute in late_count cases.\nPrint lookuplate.\n"
 	ctx.WriteShards("cases", header, "case", footer, terms, descs, 16)
 	ctx.ReplayKnownLisp()
 }
